@@ -52,7 +52,7 @@ CHECKS = {
     "C11": {
         "level": "exploration",
         "technique": 'stateful property-based testing: generated and bounded-exhaustive solver histories checked after every step against a brute-force model set',
-        "text": 'Generated-input search over operation histories on Solver and SolverCacheless (reuse off/on): random histories, cache-directed scenario rounds that repeat the same queries after further adds / branches, and every sequence of length <=3 (quick) / <=4 (thorough) over a 10-operation alphabet; plus histories on SolverStrings / Solver / SolverCacheless over string variables confined to generated finite domains, judged by the Python SMT-LIB string semantics on the explicit list of domain assignments (a query on which Z3's sequence solver gives up is counted, not judged). Each answer is compared with the model set over all 2^17 assignments maintained from the constraints the harness added.',
+        "text": 'Generated-input search over operation histories on Solver and SolverCacheless (reuse off/on): random histories, cache-directed scenario rounds that repeat the same queries after further adds / branches, and every sequence of length <=3 (quick) / <=4 (thorough) over a 10-operation alphabet; plus histories on SolverStrings / Solver / SolverCacheless over string variables confined to generated finite domains, judged by the Python SMT-LIB string semantics on the explicit list of domain assignments (a query on which the sequence solver of Z3 gives up is counted, not judged). Each answer is compared with the model set over all 2^17 assignments maintained from the constraints the harness added.',
         "note": 'Brute-force model-set reference is exact only within 17 variable bits (4 four-bit variables + 1 Boolean); latitude of DESIGN 3.2 (eval may return any feasible subset of the right size; empty result or UnsatError when no value exists; semantically constant queries answered without the solver).',
     },
     "C12": {
@@ -88,7 +88,7 @@ CHECKS = {
     "C18": {
         "level": "exploration",
         "technique": 'property-based testing: generated expressions and solver histories pickled in-process and into child processes with other hash seeds; structural-dump and model-set oracles',
-        "text": 'Generated-input search: expressions of all sorts (annotated, FP, strings) must unpickle to the same object in-process, and in children with PYTHONHASHSEED 0/1/12345 to a structurally equal expression that is hash-consed with an identical rebuild; solver histories with pickle steps (single, every live solver in one dump, directed: pickled with unchecked adds / shared children / full caches) on every frontend class keep answering per the brute-force model set; a third of the pickles keep the copy as a twin that receives the same later operations and must give equal answers wherever the answer is determined by the solver's state -- which decides approximate mode (SolverHybrid with exact=False).',
+        "text": 'Generated-input search: expressions of all sorts (annotated, FP, strings) must unpickle to the same object in-process, and in children with PYTHONHASHSEED 0/1/12345 to a structurally equal expression that is hash-consed with an identical rebuild; solver histories with pickle steps (single, every live solver in one dump, directed: pickled with unchecked adds / shared children / full caches) on every frontend class keep answering per the brute-force model set; a third of the pickles keep the copy as a twin that receives the same later operations and must give equal answers wherever the answer is determined by the state of the solver -- which decides approximate mode (SolverHybrid with exact=False).',
         "note": 'Brute-force model-set reference is exact only within 17 variable bits (4 four-bit variables + 1 Boolean); latitude of DESIGN 3.2 (eval may return any feasible subset of the right size; empty result or UnsatError when no value exists; semantically constant queries answered without the solver).',
     },
     "C02": {
@@ -148,7 +148,7 @@ CHECKS = {
     "C17": {
         "level": "fault_enumeration",
         "technique": "fault injection over generated solver histories: every (operation, solver-check index) position enumerated per history, fault kinds x reasons, answers afterwards vs a brute-force model set",
-        "text": "Generated histories (random C11/C12-style and fault-directed scenarios with several constraint groups, probes, a branch and re-queries) on Solver, SolverCacheless, SolverComposite and SolverHybrid; a counting pass learns how many backend checks each operation performs, then the history is re-run once per (operation, check index) with z3.Solver.check made to report unknown at exactly that call (without / after running the real check; reasons timeout, resource limit, canceled) or to raise z3.Z3Exception as Z3's sequence solver and memory limit do. The faulted operation must raise a ClaripyError other than UnsatError, and every later answer of that solver and of branches taken afterwards is compared with the brute-force model set. Positions are enumerated per generated history, histories are sampled.",
+        "text": "Generated histories (random C11/C12-style and fault-directed scenarios with several constraint groups, probes, a branch and re-queries) on Solver, SolverCacheless, SolverComposite and SolverHybrid; a counting pass learns how many backend checks each operation performs, then the history is re-run once per (operation, check index) with z3.Solver.check made to report unknown at exactly that call (without / after running the real check; reasons timeout, resource limit, canceled) or to raise z3.Z3Exception as the sequence solver and the memory limit of Z3 do. The faulted operation must raise a ClaripyError other than UnsatError, and every later answer of that solver and of branches taken afterwards is compared with the brute-force model set. Positions are enumerated per generated history, histories are sampled.",
         "note": "The fault is injected at the z3.Solver.check boundary from outside claripy (models timeout / resource limit / interrupt as Z3 reports them); brute-force reference exact within 17 variable bits; a history that already fails without any fault is attributed to C11-C13.",
     },
     "C19": {
